@@ -29,7 +29,7 @@ Theorem C12_holds : forall ops h0 tgt which v j ob, j <> tgt ->
   nth_error (w_objs w) j = Some ob ->
   observe (w_heap (hstep w (HMutate tgt which v))) ob = observe (w_heap w) ob.
 Proof.
-  intros ops h0 tgt which v j ob Hj w Hob. apply mutation_is_local; auto. apply owned_run. apply owned_empty.
+  intros ops h0 tgt which v j ob Hj w Hob. apply (mutation_is_local w tgt which v j ob); auto. apply owned_run. apply owned_empty.
 Qed.
 Print Assumptions C12_holds.
 
